@@ -244,9 +244,19 @@ func Generate(r *rand.Rand, workload string) *Model {
 		d := &MDecl{Tok: "const", Paren: true, Iota: true}
 		n := 3 + r.Intn(3)
 		hit := r.Intn(n)
+		// variant: a group typed by a purged type, all of whose constants are overridden or
+		// purged too - nothing of the group may be left (it would refer to the purged type)
+		allGone := r.Intn(4) == 0
+		if allGone {
+			d.IotaType = "TI"
+			te := g.newEnt("type", "TI", "", oBoth, dirPurge)
+			te.S[sideOrig].TypeKind, te.S[sideOver].TypeKind = "int", "int"
+			g.insert(g.anyFile(sideOrig), &MDecl{Tok: "type", Specs: []*MSpec{{Sides: []*ESide{te.S[sideOrig]}}}})
+			g.insert(g.anyFile(sideOver), &MDecl{Tok: "type", Specs: []*MSpec{{Purge: true, Sides: []*ESide{te.S[sideOver]}}}})
+		}
 		for i := 0; i < n; i++ {
 			origin := oOrig
-			if i == hit || r.Intn(4) == 0 {
+			if i == hit || allGone || r.Intn(4) == 0 {
 				origin = oBoth
 			}
 			e := g.newEnt("const", fmt.Sprintf("I%d", i), "", origin, dirNone)
